@@ -12,6 +12,10 @@ let cards_of_tok t = if t = "_" then [] else
 let pairs_of_tok t = if t = "_" then [] else
   List.map (fun s -> match String.split_on_char ',' s with [a; b] -> (n_of_hex a, z_of_hex b) | _ -> failwith "pair") (String.split_on_char ';' t)
 let rows_of_tok t = List.map zlist_of_tok (String.split_on_char ';' t)
+(* TMCG_CardSecret token: rows separated by ';', each row r,b,r,b,... *)
+let rec pairs_of_list = function a :: b :: r -> (a, b) :: pairs_of_list r | [] -> [] | _ -> failwith "odd row"
+let prows_of_tok t = List.map (fun r -> pairs_of_list (zlist_of_tok r)) (String.split_on_char ';' t)
+let tok_prows rows = String.concat ";" (List.map (fun r -> tok_of_zlist (List.concat_map (fun (a, b) -> [a; b]) r)) rows)
 
 let () =
   register "enc62" (function [z; out] -> (tok_of_bytes (encode62 (z_of_hex z)), out) | _ -> failwith "arity");
@@ -22,6 +26,8 @@ let () =
   register "vsec_imp" (function [s; out] -> (opt hex_of_z (import_vsecret (bytes_of_tok s)), out) | _ -> failwith "arity");
   register "tcard_exp" (function [rows; out] -> (tok_of_bytes (export_tcard (rows_of_tok rows)), out) | _ -> failwith "arity");
   register "tcard_imp" (function [s; out] -> (opt tok_rows (import_tcard (bytes_of_tok s)), out) | _ -> failwith "arity");
+  register "tsec_exp" (function [rows; out] -> (tok_of_bytes (export_tsecret (prows_of_tok rows)), out) | _ -> failwith "arity");
+  register "tsec_imp" (function [s; out] -> (opt tok_prows (import_tsecret (bytes_of_tok s)), out) | _ -> failwith "arity");
   register "vstack_exp" (function [cs; out] -> (tok_of_bytes (export_vstack (cards_of_tok cs)), out) | _ -> failwith "arity");
   register "vstack_imp" (function [old; s; out] -> (opt tok_cards (import_vstack (cards_of_tok old) (bytes_of_tok s)), out) | _ -> failwith "arity");
   register "vss_exp" (function [ps; out] -> (tok_of_bytes (export_vstacksecret (pairs_of_tok ps)), out) | _ -> failwith "arity");
